@@ -17,18 +17,18 @@ TOL = 1e-9
 META = {
     "rule": "graph-shape family F(n,m) (families.py): n in {2,3} vertices of every type multiset, every multiset of 1..m candidate edges (type-correct odometry/landmark "
     "edges on every ordered pair, unary prior, ternary custom edges; duplicates = parallel edges). Sub-products: A = x every fixed subset x fix_first_pose x every vertex "
-    "list permutation; B = x every edge-list permutation; C = x id maps (negative, sparse, huge); H = histories: one iteration under fixed set S1, flags changed to S2 (every ordered pair of non-empty subsets), the next iteration is judged. Ill-posed configurations (a component without fixed vertex, or reduced "
+    "list permutation; B = x every edge-list permutation; C = x id maps (negative, sparse, huge, id 0 on a non-first vertex) x fix_first_pose, and information scaled by 1e-9 x every fixed subset; H = histories: one iteration under fixed set S1, flags changed to S2 (every ordered pair of non-empty subsets), the next iteration is judged. Ill-posed configurations (a component without fixed vertex, or reduced "
     "Hessian cond > 1e6, by the reference) are counted and skipped. Oracle: poses after optimize(max_iter=1) = pose [+] dx_ref (dense reduced normal equations assembled by "
     "vertex identity). non-trivial = at least one free vertex moves by more than 1e-6",
     "assumptions": [
         "e, J, Omega are taken from the edges themselves (C01/C02 own them); numpy dense solve/cond trusted",
         "tolerance 1e-9 x (1 + |dx| + translation scale) x max(1, cond/1e3)",
     ],
-    "required_classes": ["history", "parallel_edges", "edge_high_index_first", "mixed_dimensions", "two_or_more_fixed", "custom_unary", "custom_ternary", "ffp_true", "ffp_false", "ids_special", "edge_order_permuted", "isolated_fixed_vertex"],
+    "required_classes": ["weak_information", "history", "parallel_edges", "edge_high_index_first", "mixed_dimensions", "two_or_more_fixed", "custom_unary", "custom_ternary", "ffp_true", "ffp_false", "ids_special", "edge_order_permuted", "isolated_fixed_vertex"],
     "bounds": {"quick": "n=2: m<=3; n=3: m<=2, vertex orders {identity, reversed, rotated}", "thorough": "n=2: m<=4; n=3: m<=3, all 6 vertex orders"},
 }
 
-ID_MAPS = [[7, -5, 1000], [2**40, 3, 2**63 - 1], [-1, -2, -3]]
+ID_MAPS = [[7, -5, 1000], [2**40, 3, 2**63 - 1], [-1, -2, -3], [5, 0, -7]]
 
 
 def _m(n, tier):
@@ -92,6 +92,12 @@ def run_chunk(chunk, tier, seed):
             for ids in ID_MAPS:
                 for vo in _vorders(n, tier):
                     _do(acc, {"types": types, "seed": seed, "edges": ms, "fixed": fixed, "ffp": False, "vorder": vo, "eorder": None, "ids": ids[:n]})
+                    # fix_first_pose must mean the first LISTED vertex whatever the ids are (no vertex pre-marked)
+                    _do(acc, {"types": types, "seed": seed, "edges": ms, "fixed": [False] * n, "ffp": True, "vorder": vo, "eorder": None, "ids": ids[:n]})
+            # weak information: the Gauss-Newton step does not depend on the scale of the information matrices
+            for fx in itertools.product((False, True), repeat=n):
+                if any(fx):
+                    _do(acc, {"types": types, "seed": seed, "edges": ms, "fixed": list(fx), "ffp": False, "vorder": list(range(n)), "eorder": None, "ids": None, "oscale": 1e-9})
     return acc
 
 
@@ -125,7 +131,14 @@ def signature(case, msgs):
 
 def spec_of(case):
     types = case["types"]
-    return F.make_spec(types, case["seed"], case["edges"], case["fixed"], case["vorder"], case["eorder"], case["ids"])
+    spec = F.make_spec(types, case["seed"], case["edges"], case["fixed"], case["vorder"], case["eorder"], case["ids"])
+    if case.get("oscale"):
+        import copy as _c
+
+        spec = _c.deepcopy(spec)
+        for e in spec["edges"]:
+            e["om"] = [[case["oscale"] * x for x in r] for r in e["om"]]
+    return spec
 
 
 def classes_of(case, spec, fixed_eff):
@@ -151,6 +164,8 @@ def classes_of(case, spec, fixed_eff):
         cl.append("ids_special")
     if case["eorder"]:
         cl.append("edge_order_permuted")
+    if case.get("oscale"):
+        cl.append("weak_information")
     touched = {i for e in spec["edges"] for i in e["ids"]}
     if any(f and v["id"] not in touched for f, v in zip(fixed_eff, spec["vertices"])):
         cl.append("isolated_fixed_vertex")
